@@ -1,5 +1,11 @@
 #!/bin/sh
-# regenerate the coq_makefile Makefile from the .v files present (generated *_gen.v included)
+# regenerate the coq_makefile Makefile from the .v files present (generated *_gen.v
+# included) -- only when the file list changed, so concurrent makes are not disturbed
 cd "$(dirname "$0")"
-{ cat _CoqProject; find . -name '*.v' | sed 's|^\./||' | sort; } > .CoqProject.all
+{ cat _CoqProject; find . -name '*.v' | sed 's|^\./||' | sort; } > .CoqProject.new
+if [ -f Makefile ] && [ -f Makefile.conf ] && cmp -s .CoqProject.new .CoqProject.all; then
+  rm -f .CoqProject.new
+  exit 0
+fi
+mv .CoqProject.new .CoqProject.all
 coq_makefile -f .CoqProject.all -o Makefile >/dev/null
